@@ -9,6 +9,7 @@ import (
 	"encoding/json"
 	"flag"
 	"fmt"
+	"io"
 	"math/rand"
 	"net/http"
 	"net/http/httptest"
@@ -732,7 +733,7 @@ func cmdFree(args []string) int {
 		n := 2 + rng.Intn(*maxN-1)
 		id := fmt.Sprintf("%s%d", *prefix, round)
 		// three kinds of rounds: process report (JSON), the real response, and a program that ProcessInit rejects
-		mode := []string{"report", "actual", "quiet", "badinit", "quiet", "report"}[round%6]
+		mode := []string{"report", "actual", "quiet", "badinit", "quiet", "server"}[round%6]
 		opts := []context.Option{context.WithResolver(resolver.NewStaticResolver("main", vcl))}
 		if mode == "actual" {
 			opts = append(opts, context.WithActualResponse(true))
@@ -744,6 +745,75 @@ func cmdFree(args []string) int {
 			}
 		}
 		ip := interpreter.New(opts...)
+		if mode == "server" {
+			// a real net/http server in front of the interpreter and real clients: request contexts are the server's
+			// (cancelled when the handler returns or the client goes away), connections are reused
+			if n > 8 {
+				n = 8
+			}
+			ip.Debugger = quietDebugger{}
+			srv := httptest.NewServer(ip)
+			var stamp int64
+			var wgs sync.WaitGroup
+			ress := make([]*reqResult, n+1)
+			kss := make([]string, n)
+			for i := 1; i <= n; i++ {
+				ress[i] = &reqResult{}
+				kss[i-1] = kinds[rng.Intn(len(kinds)-1)]
+				wgs.Add(1)
+				go func(req int, kind string, res *reqResult) {
+					defer wgs.Done()
+					hr := newRequest(req, kind)
+					out, _ := http.NewRequest(hr.Method, srv.URL+"/a", hr.Body)
+					out.Header = hr.Header
+					res.start = int(atomic.AddInt64(&stamp, 1))
+					resp, err := srv.Client().Do(out)
+					if err == nil {
+						b, _ := io.ReadAll(resp.Body)
+						resp.Body.Close()
+						res.code = resp.StatusCode
+						res.hdr = resp.Header
+						res.body = string(b)
+						json.Unmarshal(b, &res.rep) // nolint:errcheck
+						res.done = true
+					} else {
+						res.panicked = "client error: " + err.Error()
+						res.done = true
+					}
+					res.end = int(atomic.AddInt64(&stamp, 1))
+				}(i, kss[i-1], ress[i])
+			}
+			ds := make(chan struct{})
+			go func() { wgs.Wait(); close(ds) }()
+			res := hx.CaseResult{ID: id, Input: map[string]any{"n": n, "kinds": kss, "gomaxprocs": runtime.GOMAXPROCS(0), "mode": mode},
+				Class: map[string]any{"mode": "free-server"}}
+			if !waitCh(ds, 30*time.Second) {
+				res.Mismatch = append(res.Mismatch, map[string]any{"obs": "hang", "detail": "requests did not finish"})
+				out.Write(res)
+				srv.CloseClientConnections()
+				continue
+			}
+			srv.Close()
+			tr := obsTrace{ID: id, Concurrent: true}
+			for i := 1; i <= n; i++ {
+				o, mm := project(i, kss[i-1], ress[i], nil, false)
+				res.Mismatch = append(res.Mismatch, mm...)
+				if kss[i-1] != "F" {
+					tr.Reqs = append(tr.Reqs, o)
+				}
+			}
+			res.Observed = tr
+			res.Key = fmt.Sprint(mode, kss, runtime.GOMAXPROCS(0), round)
+			if len(tr.Reqs) > 0 {
+				res.Validated = true
+				bt, _ := json.Marshal(tr)
+				tf.Write(append(bt, '\n')) // nolint:errcheck
+				be, _ := json.Marshal(map[string]any{"id": id, "n": n, "events": []event{}})
+				ef.Write(append(be, '\n')) // nolint:errcheck
+			}
+			out.Write(res)
+			continue
+		}
 		if mode == "quiet" {
 			if n > 8 {
 				n = 8 // wide linearisation windows: keep the search small
@@ -875,6 +945,7 @@ type pluginWorkload struct {
 	P        int     `json:"p"`
 	K        int     `json:"k"`
 	Nested   bool    `json:"nested"`
+	Fails    []int   `json:"fails"`
 	Expected [][]int `json:"expected"`
 	Count    int     `json:"count"`
 }
@@ -899,8 +970,19 @@ func cmdPlugins(args []string) int {
 			n++
 			var sb strings.Builder
 			sb.WriteString("backend example { .host = \"example.com\"; }\nsub vcl_recv {\n  #FASTLY RECV\n")
+			failing := map[int]bool{}
+			for _, f := range w.Fails {
+				failing[f] = true
+			}
 			for p := 1; p <= w.P; p++ {
-				fmt.Fprintf(&sb, "  // @plugin: vplug p%d %d %d\n", p, w.K, *batch)
+				switch {
+				case failing[p] && p%2 == 1: // no such executable on PATH
+					fmt.Fprintf(&sb, "  // @plugin: vplug-missing p%d %d %d\n", p, w.K, *batch)
+				case failing[p]: // the process exits with a failure status
+					fmt.Fprintf(&sb, "  // @plugin: vplug fail %d %d\n", w.K, *batch)
+				default:
+					fmt.Fprintf(&sb, "  // @plugin: vplug p%d %d %d\n", p, w.K, *batch)
+				}
 			}
 			if w.Nested {
 				// the annotated statement has a body in which an ignore range is opened and still open at its end:
@@ -924,8 +1006,8 @@ func cmdPlugins(args []string) int {
 					other = append(other, m)
 				}
 			}
-			res := hx.CaseResult{ID: fmt.Sprintf("pl%d", n), Input: map[string]any{"p": w.P, "k": w.K, "nested": w.Nested, "batch": *batch, "run": rep},
-				Class: map[string]any{"mode": "plugins"}, Key: fmt.Sprintf("P=%d K=%d nested=%v run=%d", w.P, w.K, w.Nested, rep)}
+			res := hx.CaseResult{ID: fmt.Sprintf("pl%d", n), Input: map[string]any{"p": w.P, "k": w.K, "nested": w.Nested, "fails": w.Fails, "batch": *batch, "run": rep, "gomaxprocs": runtime.GOMAXPROCS(0)},
+				Class: map[string]any{"mode": "plugins"}, Key: fmt.Sprintf("P=%d K=%d nested=%v fails=%v gmp=%d run=%d", w.P, w.K, w.Nested, w.Fails, runtime.GOMAXPROCS(0), rep)}
 			missing, dup := 0, 0
 			for _, e := range w.Expected {
 				for j := 0; j < *batch; j++ {
@@ -943,7 +1025,7 @@ func cmdPlugins(args []string) int {
 				res.Mismatch = append(res.Mismatch, map[string]any{"obs": "plugin-diagnostics", "expected": w.Count * *batch,
 					"missing": missing, "duplicated": dup, "unexpected": len(got)})
 			}
-			if len(other) > 0 {
+			if len(other) > 0 && len(w.Fails) == 0 {
 				sort.Strings(other)
 				res.Drift = append(res.Drift, map[string]any{"obs": "other-lint-errors", "got": other[:1]})
 			}
